@@ -151,7 +151,7 @@ func C15Child(seed uint64, i int, noise int) {
 
 func c15N(tier string) int {
 	if tier == "thorough" {
-		return 4000
+		return 1500
 	}
 	return 240
 }
